@@ -446,6 +446,7 @@ func __callArgOf[T any](log string, i int) T { var z T; return z }
 func __callArg2Of[T any](log string, i int) T { var z T; return z }
 func __callRecvOf[T any](log string, i int) T { var z T; return z }
 func __callStrOf(log string, i int) string { return "" }
+func __callResStrOf(name string, i int) string { return "" }
 func __libFailN() int { return 0 }
 func __fileClosed[T any](f *T) bool { return false }
 func __callRetOf(log string, i int) bool { return true }
@@ -597,7 +598,7 @@ func splitTop(s string, sep byte) []string {
 
 var (
 	oldRe    = regexp.MustCompile(`\bold\(`)
-	forallRe = regexp.MustCompile(`\b(forall|forall2|forall3|exists|exists2|ite|visited|mapAt|mapHas|witness|countRecv|countIn|distinctRefs|allocatedRef|sentN|sentAt|sentStamp|neverClosed|recvN|recvAt|recvTotalAt|recvTotal|closed|drained|held|rheld|fresh|mapEq|sameElems|sameArray|sameSlice|allocatedElemsKept|allocated|arrayAllocated|same|nilSlice|disjoint|elemsUnchangedExcept|elemsUnchangedExcept2|spawnN|spawnArg|spawnIs|callNOf|callRetOf|callResOf\[[A-Za-z0-9_.*\[\]]+\]|callRecvOf\[[A-Za-z0-9_.*\[\]]+\]|callStrOf|libFailN|fileClosed|callArg2Of\[[A-Za-z0-9_.*\[\]]+\]|callArgOf\[[A-Za-z0-9_.*\[\]]+\]|callN|callIs|callRet|decoded\[[A-Za-z0-9_.*\[\]]+\]|decodeOK\[[A-Za-z0-9_.*\[\]]+\]|nextDecoded\[[A-Za-z0-9_.*\[\]]+\]|nextDecodeOK\[[A-Za-z0-9_.*\[\]]+\]|logN|logAt\[[A-Za-z0-9_.*\[\]]+\])\(`)
+	forallRe = regexp.MustCompile(`\b(forall|forall2|forall3|exists|exists2|ite|visited|mapAt|mapHas|witness|countRecv|countIn|distinctRefs|allocatedRef|sentN|sentAt|sentStamp|neverClosed|recvN|recvAt|recvTotalAt|recvTotal|closed|drained|held|rheld|fresh|mapEq|sameElems|sameArray|sameSlice|allocatedElemsKept|allocated|arrayAllocated|same|nilSlice|disjoint|elemsUnchangedExcept|elemsUnchangedExcept2|spawnN|spawnArg|spawnIs|callNOf|callRetOf|callResOf\[[A-Za-z0-9_.*\[\]]+\]|callRecvOf\[[A-Za-z0-9_.*\[\]]+\]|callStrOf|callResStrOf|libFailN|fileClosed|callArg2Of\[[A-Za-z0-9_.*\[\]]+\]|callArgOf\[[A-Za-z0-9_.*\[\]]+\]|callN|callIs|callRet|decoded\[[A-Za-z0-9_.*\[\]]+\]|decodeOK\[[A-Za-z0-9_.*\[\]]+\]|nextDecoded\[[A-Za-z0-9_.*\[\]]+\]|nextDecodeOK\[[A-Za-z0-9_.*\[\]]+\]|logN|logAt\[[A-Za-z0-9_.*\[\]]+\])\(`)
 	assertRe = regexp.MustCompile(`\bassert\(`)
 )
 
